@@ -1920,7 +1920,9 @@ impl<'a, C: Crypto> TransportRunner<'a, C> {
                     exchange_id.display(unwrap!(state.sessions.get(session_id))) // Session exists or else we wouldn't be here
                 );
 
-                self.write_evict_session_packet(packet, &mut state.sessions, session_id, false)?;
+                // Encode right away: the session leaves the session table here, so the packet
+                // cannot be encoded (and hence sent) later on, when it is picked up for transmission
+                self.write_evict_session_packet(packet, &mut state.sessions, session_id, true)?;
             } else {
                 // Found a dropped exchange which has no outstanding (re)transmission
                 // Send a standalone ACK if necessary and then close it
